@@ -44,6 +44,9 @@ fn cx_from(m: &HashMap<String, String>) -> Cx {
 }
 
 fn silence_stderr() {
+    if std::env::var_os("MMV_KEEP_STDERR").is_some() {
+        return;
+    }
     // the code under test prints recovery noise with eprintln!; keep worker stderr clean
     unsafe {
         let fd = libc::open(c"/dev/null".as_ptr(), libc::O_WRONLY);
@@ -141,11 +144,19 @@ fn main() {
         // C19: start all jobs of a json list together on threads in this fresh process
         silence_stderr();
         engine::panics::install_hook();
-        let js: Vec<Value> = serde_json::from_slice(&std::fs::read(&pos[0]).expect("read jobs")).expect("jobs json");
+        let payload: Value = serde_json::from_slice(&std::fs::read(&pos[0]).expect("read jobs")).expect("jobs json");
+        let js: Vec<Value> = payload.get("jobs").unwrap_or(&payload).as_array().cloned().unwrap_or_default();
         let jobs: Vec<(String, bool)> = js.iter().map(|j| (j["text"].as_str().unwrap_or("").to_string(), j["sched"].as_bool().unwrap_or(false))).collect();
+        let enc = |r: &[Result<String, String>]| -> Vec<Value> { r.iter().map(|x| match x { Ok(d) => json!({"ok": d}), Err(e) => json!({"err": e}) }).collect() };
+        if let Some(plan) = payload.get("plan").and_then(|p| p.as_array()) {
+            // harness-owned schedule: (segment length, thread pick) pairs
+            let plan: Vec<(u64, u64)> = plan.iter().map(|e| (e[0].as_u64().unwrap_or(1), e[1].as_u64().unwrap_or(0))).collect();
+            let (r, st) = props::c19::together_planned_here(&jobs, plan);
+            println!("\nMMVRESULT {}", json!({"results": enc(&r), "stats": {"points": st.points, "switches": st.switches, "forced": st.forced, "per_thread": st.per_thread}}));
+            return;
+        }
         let r = props::c19::together_here(&jobs);
-        let out: Vec<Value> = r.iter().map(|x| match x { Ok(d) => json!({"ok": d}), Err(e) => json!({"err": e}) }).collect();
-        println!("\nMMVRESULT {}", Value::Array(out));
+        println!("\nMMVRESULT {}", Value::Array(enc(&r)));
         return;
     }
     if cmd == "diag" {
